@@ -57,12 +57,17 @@ pub fn silence_panics() {
     HOOK.call_once(|| {
         std::panic::set_hook(Box::new(|info| {
             let loc = info.location().map(|l| format!("{}:{}", l.file().rsplit('/').next().unwrap_or(""), l.line())).unwrap_or_default();
+            if !IN_DERIVE.with(|c| c.get()) {
+                // a panic of the harness itself must stay visible
+                eprintln!("vf-core internal panic at {}: {}", loc, info);
+            }
             LAST_PANIC_LOC.with(|c| *c.borrow_mut() = loc);
         }));
     });
 }
 
 thread_local! {
+    static IN_DERIVE: std::cell::Cell<bool> = std::cell::Cell::new(false);
     static LAST_PANIC_LOC: std::cell::RefCell<String> = std::cell::RefCell::new(String::new());
 }
 
@@ -129,7 +134,10 @@ fn panic_msg(p: Box<dyn std::any::Any + Send>) -> String {
 }
 
 pub fn parse_input(text: &str) -> Result<syn::DeriveInput, String> {
-    match catch_unwind(AssertUnwindSafe(|| syn::parse_str::<syn::DeriveInput>(text))) {
+    IN_DERIVE.with(|c| c.set(true));
+    let r = catch_unwind(AssertUnwindSafe(|| syn::parse_str::<syn::DeriveInput>(text)));
+    IN_DERIVE.with(|c| c.set(false));
+    match r {
         Ok(Ok(di)) => Ok(di),
         Ok(Err(e)) => Err(e.to_string()),
         Err(p) => Err(format!("parser panicked: {}", panic_msg(p))),
@@ -138,7 +146,10 @@ pub fn parse_input(text: &str) -> Result<syn::DeriveInput, String> {
 
 pub fn expand_parsed(di: &syn::DeriveInput) -> Outcome {
     silence_panics();
-    match catch_unwind(AssertUnwindSafe(|| o2o_impl::expand::derive(di))) {
+    IN_DERIVE.with(|c| c.set(true));
+    let r = catch_unwind(AssertUnwindSafe(|| o2o_impl::expand::derive(di)));
+    IN_DERIVE.with(|c| c.set(false));
+    match r {
         Ok(Ok(ts)) => Outcome::Ok(ts.to_string()),
         Ok(Err(e)) => Outcome::Err(e.into_iter().map(|x| x.to_string()).collect()),
         Err(p) => Outcome::Panic(format!("{} @ {}", panic_msg(p), last_panic_loc())),
@@ -148,7 +159,10 @@ pub fn expand_parsed(di: &syn::DeriveInput) -> Outcome {
 /// Expand and keep the token stream (for token-level oracles).
 pub fn expand_tokens(di: &syn::DeriveInput) -> Result<proc_macro2::TokenStream, Outcome> {
     silence_panics();
-    match catch_unwind(AssertUnwindSafe(|| o2o_impl::expand::derive(di))) {
+    IN_DERIVE.with(|c| c.set(true));
+    let r = catch_unwind(AssertUnwindSafe(|| o2o_impl::expand::derive(di)));
+    IN_DERIVE.with(|c| c.set(false));
+    match r {
         Ok(Ok(ts)) => Ok(ts),
         Ok(Err(e)) => Err(Outcome::Err(e.into_iter().map(|x| x.to_string()).collect())),
         Err(p) => Err(Outcome::Panic(format!("{} @ {}", panic_msg(p), last_panic_loc()))),
